@@ -218,6 +218,11 @@ def run(tier, replay=None):
     else:
         for sc, r in zip(lost, lout["results"]):
             if r.get("broken"):
+                if str(r["broken"]).startswith("initialize:"):
+                    run_.evaluations += 1
+                    run_.diverge("client=%s initialize-failed" % sc["client"], "the handshake with a peer that answers at once got no usable answer while the connection was up: %s"
+                                 % r["broken"][:300], {"cmd": ["c08"], "input": {"scenarios": [sc]}, "spec": "Correlation (EveryCallReturns)"})
+                    continue
                 raise common.Broken("connection-lost scenario %s: %s" % (sc["id"], r["broken"]))
             run_.evaluations += 1
             rp = {"cmd": ["c08"], "input": {"scenarios": [sc]}, "observed": {"seen": r.get("seen"), "calls": r["calls"]}, "spec": "Correlation / TraceCorrelation (ConnLost, Fail)"}
